@@ -73,7 +73,17 @@ func FromRSchema(s *regex.RSchema) (*JSchema, error) {
 		return nil, errs.ErrRegexExample.F(err)
 	}
 
-	ss := New(s.File.Name(), fmt.Sprintf("%q // {regex: %q}", example, pattern))
+	// The generated schema is JSight text: its strings take JSON escapes, not Go ones.
+	exampleJSON, err := escapeJSONString(string(example))
+	if err != nil {
+		return nil, errs.ErrRegexExample.F(err)
+	}
+	patternJSON, err := escapeJSONString(pattern)
+	if err != nil {
+		return nil, errs.ErrRegexExample.F(err)
+	}
+
+	ss := New(s.File.Name(), fmt.Sprintf(`"%s" // {regex: "%s"}`, exampleJSON, patternJSON))
 	if err = ss.load(); err != nil {
 		return nil, errs.ErrLoadError.F(err)
 	}
